@@ -19,6 +19,9 @@ EXTRA = {
     "C02_m1": [("C08", ["--only", "vec3a_element_sum"])],
     "C08_m1": [("C06", ["--cfg", "sse2", "--only", "mat3a_transpose"])],
     "C10_r2m2": [("C05", ["--cfg", "none"])],
+    "C20_r3m1": [("C11", ["--tier", "quick"])],
+    "C04_r3m1": [("C07", ["--tier", "quick"]), ("C01", ["--cfg", "sse2", "--only", "vec4_div"])],
+    "C08_r3m1": [("C01", ["--cfg", "sse2", "--only", "vec3a_is_nan"])],
 }
 
 
